@@ -39,6 +39,9 @@ TABLE = {
                 note="Trusted base: compiler, harness e2/iso.cpp. Worlds are reset explicitly between sequences; policies come from rebind/replace as documented."),
     "C15": dict(engine="E1 regx", technique="bounded-exhaustive exploration: every registry x every class left out x every place and argument route, on the stock debug policy, with AddressSanitizer as crash/garbage-read monitor",
                 text="Every registry in bounds x each class omitted in turn from its record while still used as base / method parameter / definition parameter (update must report unknown_class_error with its id) or only as the dynamic class of an argument on 8 argument routes incl. exact-type virtual_ptr (error at call/construction, no body run, no crash); final with a wrong dynamic type gives method_table_error.", ref="3/C15"),
+    "C16": dict(engine="E4 schedx", technique="stateless model checking of the implementation: preemption-bounded DFS over thread interleavings at access-level scheduling points (compile-time TSan instrumentation bound to an own runtime), vector-clock race monitor, sequential-answer oracle; separate free-running real-TSan pass",
+                text="All interleavings with <= 2 (3) preemptions of 2-3 threads performing every dispatch route on a shared registry, with update of an unrelated policy running concurrently; scheduling points are the real loads/stores/atomics of the call path; no data race, every thread gets the sequential answers, no deadlock. The explorer's self-test (a seeded check-then-act cache) is found on every run. A free-running pass under real ThreadSanitizer (gcc and clang) covers what a serialising scheduler cannot.", ref="3/C16",
+                note="Trusted base: gcc's -fsanitize=thread instrumentation pass, e4/mc_rt.c (scheduler + HB monitor), the harness bodies. SC interleavings only; libc/libstdc++ internals are not instrumented."),
     "C17": dict(engine="E1 regx", technique="bounded-exhaustive exploration of registries x all abstract-flag assignments: update report vs exhaustive tuple enumeration by the reference model",
                 text="Every registry in bounds x every subset of abstract classes: per-method and total report flags (gaps, ambiguities, concrete variants) iff the model finds such a tuple; cell count equals tables built and installed.", ref="3/C17"),
     "C05": dict(engine="E3 hashx", technique="exhaustive enumeration of a finite alphabet of id sets x publish histories (all sequences up to depth 3/4) x search budgets, on the real hash_initialize / publish_vptrs / hash_type_id",
@@ -55,6 +58,7 @@ TABLE = {
 ENGINES = [
     {"name": "E2 histx", "path": "e1/drivers_history.hpp, e2/", "serves_properties": ["C03", "C07", "C14"], "kind_free_text": "explicit-state BFS over registration histories (fork-replayed) and exhaustive interleavings over several policies"},
     {"name": "E3 hashx", "path": "e3/", "serves_properties": ["C05"], "kind_free_text": "enumerator of id sets / publish histories / budgets over the real perfect-hash facets"},
+    {"name": "E4 schedx", "path": "e4/", "serves_properties": ["C16"], "kind_free_text": "access-level preemption-bounded scheduler (own __tsan_* runtime) + explorer + real-TSan free-running pass"},
     {"name": "E6 listx", "path": "e6/", "serves_properties": ["C18"], "kind_free_text": "explicit-state BFS over static_list and registration-object lifetimes"},
     {"name": "E7 fwdx", "path": "e7/", "serves_properties": ["C19"], "kind_free_text": "exhaustive name-set / type-grammar enumeration through the real generator"},
     {"name": "E1 regx", "path": "e1/", "serves_properties": ["C01", "C02", "C03", "C04", "C06", "C08", "C10", "C12", "C13", "C15", "C17"],
